@@ -136,3 +136,38 @@ func H_C15_twin_ops() {
 	nd.Assert("C15.twin.same-results", sameIdLists(ia, ib))
 	nd.Reach("end")
 }
+
+//verif:harness props=C15,C06,C14 tier=quick bounds="on each real adapter (bbolt, badger): collection with an index on x and 2 documents (symbolic float64 keys; natively scaled by 400 documents), DropIndex, then no key of that index remains in the store, the documents are intact, and a re-created index holds exactly one entry per document"
+func H_C15_dropindex_adapters() {
+	backend := nd.Choice("backend", 2)
+	st := openAdapter(backend)
+	db, _ := OpenWithStore(st)
+	nd.Assert("setup.create", db.CreateCollection("c") == nil)
+	nd.Assert("setup.index", db.CreateIndex("c", "x") == nil)
+	n := 2 + replayScale()
+	for i := 0; i < n; i++ {
+		var x interface{} = float64(i)
+		if i < 2 {
+			x = normFloat("x")
+		}
+		nd.Assert("setup.insert", db.Insert("c", mkDoc(map[string]interface{}{"_id": fmt.Sprintf("00000000-0000-4000-9000-%012d", i), "x": x})) == nil)
+	}
+	count := func(prefix string) int {
+		k := 0
+		for _, kv := range dumpStore(st) {
+			if strings.HasPrefix(string(kv.K), prefix) {
+				k++
+			}
+		}
+		return k
+	}
+	nd.Assert("C15.dropindex.entries-before", count("c:c;i:x;") == n)
+	nd.Assert("C15.dropindex.ok", db.DropIndex("c", "x") == nil)
+	nd.Assert("C06.dropindex.no-residue", count("c:c;i:x;") == 0)
+	nd.Assert("C06.dropindex.documents-intact", count("c:c;d:") == n)
+	nd.Assert("C14.recreate.ok", db.CreateIndex("c", "x") == nil)
+	nd.Assert("C14.recreate.exact", count("c:c;i:x;") == n)
+	docs, err := db.FindAll(query.NewQuery("c").Sort(query.SortOption{Field: "x", Direction: 1}))
+	nd.Assert("C14.recreate.serves", err == nil && len(docs) == n)
+	nd.Reach("end")
+}
